@@ -75,7 +75,8 @@ def main():
         report["checks"] = {}
         if report["patch_applies"] and report["imports"]:
             for pr in props:
-                env = dict(os.environ, GWF_VERIF_REPO=wt, VERIF_OUT=os.path.join(wt, "verif-out"), VERIF_FAILFAST="1")
+                os.makedirs(os.path.join(wt, "tmp"), exist_ok=True)
+                env = dict(os.environ, TMPDIR=os.path.join(wt, "tmp"), GWF_VERIF_REPO=wt, VERIF_OUT=os.path.join(wt, "verif-out"), VERIF_FAILFAST="1")
                 t0 = time.time()
                 p = sh([os.path.join(HERE, "vcheck"), pr, "--tier", os.environ.get("SEED_TIER", "quick")], cwd=HERE, env=env)
                 mechs = sorted({ln.split("mechanism=")[1].split(" ::")[0] for ln in p.stdout.splitlines() if "mechanism=" in ln})
@@ -83,7 +84,6 @@ def main():
                 report["checks"][pr] = {"rc": p.returncode, "caught": p.returncode == 1, "mechs": mechs, "wall": round(time.time() - t0, 1), "head": p.stdout.splitlines()[0][:200] if p.stdout else p.stderr[-300:], "first": first_msg}
     finally:
         sh(["git", "-C", "/repo", "worktree", "remove", "--force", wt])
-        subprocess.call("rm -rf /tmp/gwfproj-* /tmp/gwfv-* /tmp/gwfrun-* 2>/dev/null", shell=True)
     print(json.dumps(report, indent=1))
     if report.get("confirmed"):
         dst = os.path.join(HERE, "seeded", tag)
